@@ -286,7 +286,103 @@ func propC16(c *ctx) error {
 	if err := c16Twins(c, r); err != nil {
 		return err
 	}
-	return c16Nested(c, r)
+	if err := c16Nested(c, r); err != nil {
+		return err
+	}
+	return c16Builtins(c, r)
+}
+
+// c16Builtins: histories in which the data of one execution defines a name that is also a built-in function / constant
+// (len, true, print, int, isNil) and the data of another execution does not — on one template object, on several objects
+// and managers of one process, in every order. What an earlier execution resolved (in the data or in the built-ins) must
+// not be remembered for a later one.
+func c16Builtins(c *ctx, r *rng) error {
+	res := c.res
+	src := `<p :text="${len(xs)}|${true}|${print('a')}|${int(2)}|${isNil(xs)}">o</p><i :if="${true}">T</i><i :else>F</i>`
+	type ov struct {
+		name string
+		v    any
+		// rendering of the overridden slot
+		slot int
+		out  string
+	}
+	ovs := []ov{
+		{"len", func(any) int { return 42 }, 0, "42"},
+		{"true", false, 1, "false"},
+		{"print", func(...any) string { return "P" }, 2, "P"},
+		{"int", func(any) string { return "I" }, 3, "I"},
+		{"isNil", func(any) string { return "N" }, 4, "N"},
+	}
+	base := []string{"2", "true", "a", "2", "false"}
+	mkMgr := func() (types.Template, error) {
+		m := html.NewTplManager()
+		if err := m.Add("t", strings.NewReader(src)); err != nil {
+			return nil, err
+		}
+		return m.GetTemplate("t")
+	}
+	n := c.n(40, 1500)
+	for i := 0; i < n; i++ {
+		shared, err := mkMgr()
+		if err != nil {
+			res.SelfTest = append(res.SelfTest, "C16 builtin-collision template does not load: "+err.Error())
+			return nil
+		}
+		var hist []any
+		for s, steps := 0, 3+r.n(6); s < steps; s++ {
+			data := map[string]any{"xs": []int{1, 2}}
+			slots := append([]string{}, base...)
+			mask := 0
+			if s > 0 || i%2 == 1 { // every other history starts with a plain execution
+				mask = r.n(1 << len(ovs))
+				if r.p(30) {
+					mask = 0
+				}
+			}
+			var used []string
+			for k, o := range ovs {
+				if mask&(1<<k) != 0 {
+					data[o.name] = o.v
+					slots[o.slot] = o.out
+					used = append(used, o.name)
+				}
+			}
+			want := "<p>" + strings.Join(slots, "|") + "</p>"
+			if mask&2 != 0 {
+				want += "<i>F</i>"
+			} else {
+				want += "<i>T</i>"
+			}
+			t := shared
+			where := "one template object"
+			if r.p(30) {
+				t, _ = mkMgr()
+				where = "a fresh manager in the same process"
+			}
+			hist = append(hist, J{"data_defines": used, "on": where})
+			var sb strings.Builder
+			errS := ""
+			func() {
+				defer func() {
+					if x := recover(); x != nil {
+						errS = fmt.Sprint("panic: ", x)
+					}
+				}()
+				if err := t.Execute(&sb, data); err != nil {
+					errS = err.Error()
+				}
+			}()
+			res.S3Checked++
+			res.count("builtin_collision_steps")
+			if errS != "" || sb.String() != want {
+				res.violate(J{"sub": "builtins", "tpl": src, "history": hist}, want, J{"out": sb.String(), "err": trunc(errS, 200)},
+					fmt.Sprintf("execution #%d of a history: a name that is both in the data of SOME executions and a built-in is not resolved from this execution's own data first", s+1))
+				break
+			}
+		}
+		res.eval("builtins|"+jstr(hist), true, J{"history": hist})
+	}
+	return nil
 }
 
 // c16Nested: executions that OVERLAP without racing. A data function called in the middle of an attribute value, a text
